@@ -58,7 +58,11 @@ func verifC19BlocksBody() {
 		if s.outcome != verifC19Found {
 			continue
 		}
-		ntx := verifChoice("ntx", T+1)
+		tmax := T
+		if n > 2 && scen == 0 {
+			tmax = verifParam("max_txs_long", T) // windows of more than two slots
+		}
+		ntx := verifChoice("ntx", tmax+1)
 		for j := 0; j < ntx; j++ {
 			t := s.addTx()
 			t.metaKind = verifC19MetaSerdeLatest
